@@ -10,7 +10,7 @@ EXPLANATION = ('(1) sibling agreement: the progress variants have the same loop 
                'k == total-1 with total the trip count, the reporter leaves its loop when n_finished >= number of channels and counts a chain as finished under stats.n == total; '
                '(5) the two reporter closures (core.rs, nuts.rs) are structurally identical; (6) no dtype-checked TensorData accessor whose element type is not syntactically the '
                'data\'s dtype reaches unwrap/expect. Termination under every interleaving is a liveness property and is NOT decided (the obligations in 4 are necessary, not sufficient).')
-FLOORS = {'obligations': 34}   # counted on the reference tree; fewer instantiated obligations is reported, never passed silently
+FLOORS = {'obligations': 36}   # counted on the reference tree; fewer instantiated obligations is reported, never passed silently
 TECHNIQUE = 'sibling loop-summary agreement, result-discipline and typestate (TensorData dtype) analysis, structural equivalence of the reporter closures'
 SEND = 'std::sync::mpsc::Sender::send'
 
@@ -23,6 +23,7 @@ def run(ctx):
     reporters(ctx, nc, nd)
     stats_from_returned(ctx, nc, nd)
     dtype(ctx)
+    tracker_total(ctx)
 
 
 def send_rules(ctx, pfx, A, ev, ls, sp):
@@ -304,6 +305,31 @@ def collect_rule(ctx, oid, A, ev, ret, b, workerkey, chains_name, stackf):
             found = 'channels: n=%s ok=%s; workers: n=%s ok=%s; sample=%s' % (show(cl.n), okchan, show(fl.n), okwork, found)
     ctx.check(oid, A, 'collect', ok, expected='one channel per chain (n = number of chains); worker c runs chain c in place with sender c; results stacked on the chain axis in chain order', found=found, sp=b['sp'],
               why='run_progress returns a [n_chains, n_collect, dim] array whose row c belongs to chain c (as run does); a missing channel silently drops a chain')
+
+
+def tracker_total(ctx):
+    """the streaming trackers fed by the progress workers accept every state of the right length: their only Err exit is the
+    shape check (a function of the length alone, and the length is the one the tracker was built with)"""
+    for A, head in (('ChainTracker::step', 'stats::ChainTracker'), ('MultiChainTracker::step', 'stats::MultiChainTracker')):
+        b = ctx.anchor(A, name='step', self_head=head, container='inherent')
+        if b is None:
+            ctx.unknown('C10.tracker_total', A, 'anchor', why='anchor not found')
+            continue
+        ev = ctx.evaluate(b)
+        bad, n_err = [], 0
+        stack = [ev.ret_term]
+        while stack:
+            t = stack.pop()
+            if t[0] == 'ite':
+                stack.extend([t[2], t[3]])
+            elif T.is_app(t, 'err_of') and T.is_app(t[2][0], 'from_shape'):
+                n_err += 1
+            elif t is T.tup():
+                pass
+            else:
+                bad.append(t)
+        ctx.check('C10.tracker_total', A, 'err-exits', not bad, expected='Ok(()) on every path except the shape check of the incoming state', found='value-dependent result(s): ' + '; '.join(show(x)[:120] for x in bad) if bad else '%d shape-check exit(s), otherwise Ok(())' % n_err,
+                  sp=b['sp'], why='the worker propagates a tracker error and run_progress panics on it: a tracker that rejects some chain states makes run_progress fail where run succeeds')
 
 
 def dtype(ctx):
